@@ -283,22 +283,51 @@ class ExprMixin:
                 _unsup('unary op', e)
 
     def ev_BoolOp(self, e, st):
-        # pure operands: a plain formula; otherwise short-circuit forks
-        if self.specmode or all(self.is_pure(x) for x in e.values):
+        # pure operands of one type: a plain formula; otherwise short-circuit forks (exact value semantics of and/or)
+        if self.specmode:
             vs = [self.ev1(x, st) for x in e.values]
+            work = st
+        elif all(self.is_pure(x) for x in e.values):
+            # short-circuit: operand k is only evaluated when the operands before it did not decide the result, so its
+            # obligations (None checks, index checks) and the facts it produces are conditional on that
+            work = st.copy()
+            saved_obls = len(self.obls)
+            vs, guards = [], []
+            for x in e.values:
+                sk = work.copy()
+                sk.assume(*guards)
+                n0 = len(sk.pc)
+                v = self.ev1(x, sk)
+                for f in sk.pc[n0:]:
+                    work.assume(z3.Implies(z3.And(*guards), f) if guards else f)
+                for k_, arr in sk.heap.items():
+                    work.heap.setdefault(k_, arr)
+                vs.append(v)
+                t = self.truthy(v, work)
+                guards.append(t if isinstance(e.op, ast.And) else z3.Not(t))
+            kinds = {('seq' if isinstance(v, SeqV) else repr(v.ty)) for v in vs}
+            if len(kinds) > 1:
+                del self.obls[saved_obls:]        # mixed types: the value is one of the operands -> fork instead
+                vs = None
+        else:
+            vs = None
+        if vs is not None:
+            if work is not st:
+                st.pc, st.heap = work.pc, work.heap
             if all((not isinstance(v, SeqV)) and v.ty.kind == 'bool' for v in vs):
                 zs = [v.z for v in vs]
                 yield SV(BOOL, z3.And(*zs) if isinstance(e.op, ast.And) else z3.Or(*zs)), st
                 return
-            # value-returning and/or: x or y == x if x else y
-            res = vs[-1]
-            for v in reversed(vs[:-1]):
-                t = self.truthy(v, st)
-                ty = self.join_types([v.ty, res.ty])
-                a, b = self.coerce(v, ty, st), self.coerce(res, ty, st)
-                res = SV(ty, z3.If(t, b.z, a.z) if isinstance(e.op, ast.And) else z3.If(t, a.z, b.z))
-            yield res, st
-            return
+            if not any(isinstance(v, SeqV) for v in vs):
+                # value-returning and/or: x or y == x if x else y
+                res = vs[-1]
+                for v in reversed(vs[:-1]):
+                    t = self.truthy(v, st)
+                    ty = self.join_types([v.ty, res.ty])
+                    a, b_ = self.coerce(v, ty, st), self.coerce(res, ty, st)
+                    res = SV(ty, z3.If(t, b_.z, a.z) if isinstance(e.op, ast.And) else z3.If(t, a.z, b_.z))
+                yield res, st
+                return
         yield from self._boolop_fork(e, list(e.values), st)
 
     def _boolop_fork(self, e, values, st):
@@ -332,8 +361,27 @@ class ExprMixin:
     def ev_IfExp(self, e, st):
         if self.specmode or (self.is_pure(e.body) and self.is_pure(e.orelse) and self.is_pure(e.test)):
             t = self.truthy(self.ev1(e.test, st), st)
-            a, b = self.ev1(e.body, st), self.ev1(e.orelse, st)
-            ty = self.join_types([a.ty, b.ty])
+            if self.specmode:
+                a, b = self.ev1(e.body, st), self.ev1(e.orelse, st)
+            else:
+                # each branch is evaluated (obligations, facts) under its own condition
+                saved_obls = len(self.obls)
+                sa, sb = st.copy(), st.copy()
+                sa.assume(t); sb.assume(z3.Not(t))
+                na, nb = len(sa.pc), len(sb.pc)
+                a, b = self.ev1(e.body, sa), self.ev1(e.orelse, sb)
+                ty0 = self.join_types([a.ty, b.ty]) if not (isinstance(a, SeqV) or isinstance(b, SeqV)) else None
+                if ty0 is not None and ty0.kind in ('int', 'bool'):
+                    for f in sa.pc[na:]:
+                        st.assume(z3.Implies(t, f))
+                    for f in sb.pc[nb:]:
+                        st.assume(z3.Implies(z3.Not(t), f))
+                    for hs in (sa.heap, sb.heap):
+                        for k_, arr in hs.items():
+                            st.heap.setdefault(k_, arr)
+                else:
+                    del self.obls[saved_obls:]
+            ty = self.join_types([a.ty, b.ty]) if not (isinstance(a, SeqV) or isinstance(b, SeqV)) else ANY
             if self.specmode or ty.kind in ('int', 'bool'):
                 a, b = self.coerce(a, ty, st), self.coerce(b, ty, st)
                 yield SV(ty, z3.If(t, a.z, b.z)), st
@@ -447,14 +495,17 @@ class ExprMixin:
         if lk == 'set' and rk == 'set' and isinstance(op, ast.LtE):
             x = fresh('x', sort_of(l.ty.args[0]))
             return z3.ForAll([x], z3.Implies(z3.Select(st.smem(l.z, x.sort()), x), z3.Select(st.smem(r.z, x.sort()), x)))
-        if lk == 'tuple' and rk == 'tuple' and all(a.kind == 'int' for a in l.ty.args + r.ty.args) and len(l.ty.args) == len(r.ty.args):
-            # lexicographic order on int tuples
+        if lk == 'str' and rk == 'str':
+            return {ast.Lt: l.z < r.z, ast.LtE: l.z <= r.z, ast.Gt: r.z < l.z, ast.GtE: r.z <= l.z}[type(op)]      # code-point order, as in CPython
+        if lk == 'tuple' and rk == 'tuple' and len(l.ty.args) == len(r.ty.args) and len(l.ty.args) >= 1 \
+                and all(a.kind in ('int', 'bool', 'str') for a in l.ty.args + r.ty.args):
+            # lexicographic order on tuples of ints / strings
             def lex(i):
-                a, b = tuple_get(l, i).z, tuple_get(r, i).z
+                a, b = tuple_get(l, i), tuple_get(r, i)
                 if i == len(l.ty.args) - 1:
-                    return {ast.Lt: a < b, ast.LtE: a <= b, ast.Gt: a > b, ast.GtE: a >= b}[type(op)]
-                strict = a < b if isinstance(op, (ast.Lt, ast.LtE)) else a > b
-                return z3.Or(strict, z3.And(a == b, lex(i + 1)))
+                    return self.compare(op, a, b, st, node)
+                strict = self.compare(ast.Lt() if isinstance(op, (ast.Lt, ast.LtE)) else ast.Gt(), a, b, st, node)
+                return z3.Or(strict, z3.And(self.equal(a, b, st), lex(i + 1)))
             return lex(0)
         _unsup('comparison %s on %s, %s' % (type(op).__name__, lk, rk), node)
 
